@@ -107,6 +107,8 @@ Inductive fsimple :=
 | FEraseOne (a : fiter)              (* values.erase(a);   -- one element, UB at end()       *)
 | FClearAll                          (* values.clear();                                      *)
 | FReserveArg                        (* values.reserve(size);                                *)
+| FRetCall (m : fmeth)               (* return <member m of this object>(key);  -- a forwarding body,
+                                        e.g. return ( *const_cast<FlatMap *>(this))[key]; the callee's identity is the fact *)
 | FSUnknown.
 
 Inductive fstmt := FS (s : fsimple) | FIf (c : fcond) (body : list fsimple).   (* if without else *)
@@ -115,9 +117,12 @@ Definition ftable := fmeth -> list fstmt.
 
 Record ffacts := mkFF {
   ff_values_vector_of_pairs : bool;  (* `values` is a std::vector<std::pair<KEY,VALUE>>, no initialiser *)
-  ff_ctor_defaulted : bool           (* FlatMap() = default: a new map is the empty vector              *)
+  ff_ctor_defaulted : bool;          (* FlatMap() = default: a new map is the empty vector              *)
+  ff_const_index_uninstantiable : bool  (* `c[k]` on a const FlatMap does not compile (push_back on a const
+                                           vector): the reason operator[] const is on the exclusion list     *)
 }.
-Definition ffacts_ok (f : ffacts) : bool := ff_values_vector_of_pairs f && ff_ctor_defaulted f.
+Definition ffacts_ok (f : ffacts) : bool :=
+  ff_values_vector_of_pairs f && ff_ctor_defaulted f && ff_const_index_uninstantiable f.
 
 (* iterator values: forward / reverse position *)
 Inductive itv := Fw (i : nat) | Rv (j : nat).
@@ -235,6 +240,11 @@ Definition fsimple_exec (cal : fcallee) (c : fctx) (s : fsimple) : option fctx :
       end
   | FClearAll => Some (f_set_m c [])
   | FReserveArg => Some c
+  | FRetCall m =>
+      match cal m (fc_m c) (fc_key c) with
+      | Some (m', r) => Some (f_set_ret (f_set_m c m') r)
+      | None => None
+      end
   | FSUnknown => None
   end.
 
@@ -275,10 +285,11 @@ Definition fbody (cal : fcallee) (body : list fstmt) (m : fm) (key : N) : option
   | None => None
   end.
 
-(* members call members at most two deep (at -> lookup -> std::find_if) *)
+(* members call members at most three deep (a forwarding overload -> at -> lookup -> std::find_if) *)
 Definition fcal0 : fcallee := fun _ _ _ => None.
 Definition fcal1 (t : ftable) : fcallee := fun m s k => fbody fcal0 (t m) s k.
-Definition fcall (t : ftable) (m : fmeth) (s : fm) (k : N) : option (fm * fret) := fbody (fcal1 t) (t m) s k.
+Definition fcal2 (t : ftable) : fcallee := fun m s k => fbody (fcal1 t) (t m) s k.
+Definition fcall (t : ftable) (m : fmeth) (s : fm) (k : N) : option (fm * fret) := fbody (fcal2 t) (t m) s k.
 
 Fixpoint set_second (m : fm) (i : nat) (v : N) : fm :=
   match m, i with
@@ -317,6 +328,18 @@ Definition fexec (t : ftable) (m : fm) (o : fm_op) : option (fm * fm_out) :=
   | FContains k => match fcall t MContains m k with Some (m', RBool b) => Some (m', OBool b) | _ => None end
   | FErase k => match fcall t MErase m k with Some (m', RVoid) => Some (m', OUnit) | _ => None end
   | FClear => match fcall t MClear m 0 with Some (m', RVoid) => Some (m', OUnit) | _ => None end
+  | FAtC k =>                                   (* the const overloads, reached through a const FlatMap & *)
+      match fcall t MAtC m k with
+      | Some (m', RRefSecond i) => match nth_error m' i with Some kv => Some (m', OVal (snd kv)) | None => None end
+      | Some (m', RThrow) => Some (m', OThrow)
+      | _ => None
+      end
+  | FAtIndexC i =>
+      match fcall t MAtIndexC m i with
+      | Some (m', RRefItem j) => match nth_error m' j with Some kv => Some (m', OItem (fst kv) (snd kv)) | None => None end
+      | Some (m', RThrow) => Some (m', OThrow)
+      | _ => None
+      end
   end.
 
 (* the elements visited by  for (it = b(); it != e(); ++it)  *)
